@@ -327,6 +327,9 @@ func c13Cases(g *Gen) []c13Case {
 }
 
 func c13Oracle(g *Gen, n int) {
+	if n <= 0 {
+		return
+	}
 	cases := c13Cases(g)
 	stride := 1
 	if len(cases) > n && n > 0 {
